@@ -507,6 +507,10 @@ def run(ctx: Ctx):
     ctx.guard(rule_no_clobber, ctx, C)
     ctx.guard(rule_offset_zero, ctx)
     ctx.guard(rule_token_boundary, ctx, data)
+    # "the written reporter is among its candidate editions": the candidates an extractor attaches to a spelling are exactly the editions
+    # reporters-db lists for it (shared with C16, where the same table decides equality)
+    from .c16 import rule_edition_table
+    ctx.guard(rule_edition_table, ctx, "R-C01-15")
     ctx.guard(rule_scan_extent, ctx, data)
     ctx.floor("R-C01-11", 2)
     ctx.floor("R-C01-10", 7)
